@@ -2,7 +2,8 @@
    Only statements, closed by `exact`, and their assumptions. *)
 From Coq Require Import Permutation.
 From VV Require Import Model.Base Model.Pattern Model.CodonTable Model.BgValidate Proofs.BgValidateProofs
-  Model.Gpo Model.PpeSeq Spec.LiftSpec Proofs.GpoTop Proofs.PpeLiftProofs Model.Transcript Model.CodonsInRange Proofs.CodonsInRangeProofs.
+  Model.Gpo Model.PpeSeq Spec.LiftSpec Proofs.GpoTop Proofs.PpeLiftProofs Model.Transcript Model.CodonsInRange Proofs.CodonsInRangeProofs
+  Model.Seq Model.Vcf Model.PyLoop Generated.KernelsLift Proofs.KernelLiftEquiv.
 
 (* the loop of validate_background_variants refuses exactly when some variant starting in the targeton is counted as
    protein changing and force-bg-ns is off, or is also length changing and force-bg-indels is off *)
@@ -84,6 +85,13 @@ Example C15_example :
   validate t true true [ins; mis] = Ok tt.
 Proof. vm_compute. repeat split. Qed.
 
+(* which codons of an exon a variant's span reaches (Exon.get_codon_indices: the range clamped to the exon, the codon index of its two ends,
+   ascending or - on the minus strand - descending along the genome), translated from exon.py on every run, is the model's codon_indices
+   that the two theorems above rest on, for every valid exon and range *)
+Theorem C15_codon_indices_match_source : forall e s r, range_valid (x_range e) = true -> range_valid r = true ->
+  k_exon_get_codon_indices e s r = codon_indices s e r.
+Proof. exact k_exon_get_codon_indices_eq. Qed.
+
 Print Assumptions C15_refusal_iff.
 Print Assumptions C15_changes_iff.
 Print Assumptions C15_refusal_rule.
@@ -94,3 +102,4 @@ Print Assumptions C15_ppe_on_deleted_base_refused_iff.
 Print Assumptions C15_codons_in_range_complete.
 Print Assumptions C15_codons_in_range_no_adjacent_dup.
 Print Assumptions C15_codons_example.
+Print Assumptions C15_codon_indices_match_source.
